@@ -60,7 +60,7 @@ type cmdReply struct {
 	ack  chan struct{}
 }
 
-var timeout = 120 * time.Millisecond
+var timeout = 250 * time.Millisecond
 
 // stale: the run fell behind real time (a Result() call had been waiting for more than half its timeout when the next
 // operation was due): it is not a run of the behaviour any more and is repeated
@@ -168,6 +168,15 @@ func runCase(c *Case) (Seen, string) {
 		case "elapse":
 			// more than the timeout passes between the requests and their collection; the replies are in already
 			time.Sleep(timeout + timeout/2)
+		}
+		// the operation itself may have taken long on a busy machine: a Result() call that was waiting must still have
+		// been well inside its timeout when the operation was through
+		if op.Op != "timeout" && op.Op != "elapse" {
+			for _, t0 := range tstart {
+				if time.Since(t0) > timeout*3/5 {
+					return seen, stale
+				}
+			}
 		}
 		// "once Result() has returned": the calls this operation completes have returned (and unregistered their
 		// PID) before the next operation is issued
